@@ -97,16 +97,21 @@ fn resolve(b: Batch, len: usize, pp: usize) -> usize {
 /// Filler regions (power-of-two reserves) until fewer than 48 KiB separate the allocated area from
 /// the end of the data file.
 pub fn fill_file(db: &rawdb::Database) -> Result<(), String> {
-    for k in 0..40 {
+    fill_file_to(db, 48 * 1024, 32 * 1024)
+}
+
+/// `max_gap`: stop when fewer bytes than this are left; `keep`: never fill the last `keep` bytes
+pub fn fill_file_to(db: &rawdb::Database, max_gap: usize, keep: usize) -> Result<(), String> {
+    for k in 0..60 {
         let gap = db.file_len().saturating_sub(db.layout().len());
-        if gap <= 48 * 1024 {
+        if gap <= max_gap {
             break;
         }
         let mut sz = 4096usize;
-        while sz * 2 <= gap - 32 * 1024 {
+        while sz * 2 <= gap - keep {
             sz *= 2;
         }
-        let r = db.create_region_if_needed(&format!("filler{k}")).map_err(|e| format!("filler: {e}"))?;
+        let r = db.create_region_if_needed(&format!("filler{k}-{max_gap}")).map_err(|e| format!("filler: {e}"))?;
         r.write(&vec![0xEEu8; sz]).map_err(|e| format!("filler write: {e}"))?;
     }
     Ok(())
